@@ -5,6 +5,24 @@ props = [json.loads(l) for l in open('/verif/properties.jsonl')]
 
 # id -> (level text, level note, technique)
 CHECKS = {
+ "C22": ("Random multi-block programs over a few frames, RF, classical and control-flow instructions; every block's dependency graph is checked for acyclicity, forward-pointing edges and (when every RF instruction matches a frame) reachability from block start and to block end.",
+         "Bounded program length; default instruction handler only.",
+         "property-based testing: proptest-generated programs, graph-validity predicates"),
+ "C23": ("Through the cfg hook every access sequence up to length 6/8 is fed to the dependency queue and compared with a reference bookkeeping model; every short program over a 10-instruction memory-access alphabet plus random blocks are checked for ordering of conflicting pairs and justification of every memory edge.",
+         "Accesses are those reported by DefaultHandler::memory_accesses (checked in C27); bounded lengths.",
+         "property-based testing: exhaustive small-scope enumeration (hook + programs) and proptest random blocks; reference-model and validity-predicate oracle"),
+ "C24": ("Through the cfg hook every frame-queue access sequence up to length 8/11 is compared with the reference bookkeeping; random blocks over overlapping frames are checked for StableOrdering/Scheduled paths between conflicting pairs and for justification of every frame edge.",
+         "used/blocked sets are those reported by DefaultHandler::matching_frames (checked in C26); bounded lengths.",
+         "property-based testing: exhaustive queue sequences via hook + proptest random blocks; reference-model and validity-predicate oracle"),
+ "C25": ("Random single-block timed programs with exactly representable durations compared exactly with a conflict-based ASAP reference scheduler (durations, starts, exclusivity, total duration, starts vs the graph's timed predecessors), and a calibrated variant comparing source spans with hulls of the reference schedule of the expansion.",
+         "Durations are dyadic rationals (exact float arithmetic); calibrations in the calibrated variant are parameter-free fixed-qubit ones.",
+         "property-based testing: proptest-generated programs against a reference ASAP scheduler (differential oracle)"),
+ "C26": ("Complete enumeration of all 256 subsets of an 8-frame universe times 342 frame-related instructions (incl. undefined frames), compared with a reference written from the Quil-T rules; random repeats with the instruction in the program body.",
+         "Universe limited to 3 qubits x 3 names; bare RESET only checked for the general invariants.",
+         "property-based testing: exhaustive enumeration against a reference model"),
+ "C27": ("Random single instructions of every body kind with all operand forms and nested expressions, and CALLs against generated extern signatures, compared exactly with an access table written from the instruction semantics.",
+         "Region alphabet of 3 names; CALLs with a wrong argument count only have to return.",
+         "property-based testing: proptest-generated instructions against a reference table"),
  "C14": ("Complete enumeration of the 22 standard gates over every injective qubit placement into up to 4 (quick) / 5 (thorough) qubits at 7 special parameters, plus sampled real parameters in four spellings, compared entrywise with matrices typed from the Quil specification and lifted by an independent bit-manipulation lifter.",
          "The reference matrices and the lifting convention are the harness's transcription of Quil spec section 4.3; continuous parameters are sampled.",
          "property-based testing: exhaustive placement enumeration + proptest-sampled parameters against a reference-model oracle"),
@@ -24,7 +42,7 @@ CHECKS = {
          "Trusts Program::from_instructions/body_instructions to expose the body; INCLUDE not generated (excepted by the statement).",
          "property-based testing: exhaustive small-scope enumeration + proptest random bodies against a reconstruction oracle"),
 }
-HOOK_COMMITS = []
+HOOK_COMMITS = ["8780690"]
 
 checks = []
 for p in props:
